@@ -9,4 +9,6 @@ CONSTANTS Names <- NamesMB Depth = 3 Vals <- ValsX Sep = 46 Design = "list" Base
 CONSTRAINT Bound
 VIEW ViewX
 ACTION_CONSTRAINT EmitX
+INVARIANTS Refines PrefixClosed
+PROPERTIES ArrivalProp SingleProp
 CHECK_DEADLOCK FALSE
